@@ -538,8 +538,10 @@ static int attr_get_with_type(struct xcm_socket *s, const char *name,
     int rc = xcm_attr_get(s, name, &actual_type, value, capacity);
 
     if (rc < 0) {
-	if (errno == EOVERFLOW)
-	    errno = ENOENT; /* wrong type */
+	/* a too-small buffer means wrong type only if the types
+	   actually differ (string and binary values vary in size) */
+	if (errno == EOVERFLOW && actual_type != required_type)
+	    errno = ENOENT;
 	return -1;
     }
 
